@@ -9,7 +9,7 @@ Trees are hashable tuples:
   ('bin', op, a, b, ty) ('un', op, a, ty) ('cast', ty, a, from_ty)
   ('call', key, args, display) ('agg', kind, name, args) ('discr', base) ('unk', why)
 """
-import json
+import json, re
 
 INT_BITS = {"u8": 8, "u16": 16, "u32": 32, "u64": 64, "u128": 128, "usize": 64,
             "i8": 8, "i16": 16, "i32": 32, "i64": 64, "i128": 128, "isize": 64, "bool": 1, "char": 32}
@@ -250,11 +250,25 @@ class Exprs:
         c = t["callee"]
         if c.get("key") is None:
             return ("calli", self.operand(c["indirect"]), tuple(self.operand(a) for a in t["args"]))
+        conv = int_conversion(c["key"])
+        if conv and len(t["args"]) == 1:
+            return ("cast", conv[0], self.operand(t["args"][0]), conv[1])
         return ("call", c["key"], tuple(self.operand(a) for a in t["args"]), c.get("display", ""))
 
 
 # getters / predicates of the packed move: pure functions of a by-value argument
 PURE_CALL_PREFIXES = ("inkayaku_board::board::Move::get_", "inkayaku_board::board::Move::is_")
+
+
+_CONV = re.compile(r"^core::convert::num::<(\w+) as From<(\w+)>>::from$")
+
+
+def int_conversion(key):
+    """(to, from) when `key` is the lossless integer conversion `<to as From<from>>::from` (the same value as `as`)"""
+    m = _CONV.match(key or "")
+    if m and m.group(1) in INT_BITS and (m.group(2) in INT_BITS or m.group(2) in ("bool", "char")):
+        return m.group(1), m.group(2)
+    return None
 
 
 def _params_only(t, depth=0):
@@ -366,7 +380,10 @@ class PathEval:
                 tree = ("calli", self.operand(c["indirect"]), args)
             else:
                 tree = ("call", c["key"], args, c.get("display", ""))
-                if self.inliner:
+                conv = int_conversion(c["key"])
+                if conv and len(args) == 1:
+                    tree = ("cast", conv[0], args[0], conv[1])
+                elif self.inliner:
                     r = self.inliner(c["key"], args)
                     if r is not None:
                         # the summary reads memory as of this call: resolve remembered writes
@@ -528,6 +545,8 @@ def fold(tree, env=None):
                      "wrapping_sub", "overflowing_mul", "overflowing_add", "wrapping_shl", "wrapping_shr") and key.startswith("core::num"):
             vals = [fold(a, env) for a in args]
             ty = _ty_of(args[0])
+            if INT_BITS.get(ty) is None and key.startswith("core::num::<"):
+                ty = key[len("core::num::<"):].split(">", 1)[0].replace("impl ", "")      # core::num::<u64>::wrapping_mul
             bits = INT_BITS.get(ty)
             if bits is None:
                 raise Unfoldable("intrinsic type")
